@@ -71,6 +71,9 @@ def units(tier):
     for b in range(2):
         yield {"leg": "meta", "b": b}
     yield {"leg": "meta-cli"}
+    # the bin table handed over in other forms (row labels, coordinate dtypes, chromosome column types, extra columns of several dtypes)
+    for b in range(0, 40, 5):
+        yield {"leg": "binsform", "b": b}
     # bin-id columns of every integer dtype on tables just large enough that bin1*n_bins+bin2 leaves the dtype (anything computed
     # from the ids in their own dtype wraps there), rows given sorted / reversed / as a dict; count values of both signs
     for dt, n in (("int8", 13), ("uint8", 17), ("int16", 190), ("uint16", 260), ("int32", 46400), ("uint32", 65600), ("int64", 13), ("uint64", 13)):
@@ -557,6 +560,56 @@ def _samepath(R, unit, only):
         scratch.rm(p)
 
 
+def _binsform(R, b, only):
+    import cooler
+    table, symm, cells = _base_points()[b]
+    bins = alpha.table_bins(table, "chr")
+    names = alpha.NAMES["chr"][:len(table)]
+    n = len(bins)
+    bdf = build.bins_df(bins)
+    pix = _mkpix(n, cells)
+    forms = {
+        "offset-labels": lambda: bdf.set_axis(list(range(10, 10 + n))),
+        "gappy-labels": lambda: bdf.set_axis(list(range(0, 2 * n, 2))),
+        "reversed-labels": lambda: bdf.set_axis(list(range(n - 1, -1, -1))),
+        "repeated-labels": lambda: bdf.set_axis([0] * n),
+        "string-labels": lambda: bdf.set_axis([f"r{q}" for q in range(n)]),
+        "int32-coordinates": lambda: bdf.astype({"start": np.int32, "end": np.int32}),
+        "uint16-coordinates": lambda: bdf.astype({"start": np.uint16, "end": np.uint16}),
+        "object-chrom": lambda: bdf.assign(chrom=bdf["chrom"].astype(str).astype(object)),
+        "unordered-categorical": lambda: bdf.assign(chrom=pd.Categorical(bdf["chrom"].astype(str), categories=names)),
+        "extra-columns": lambda: bdf.assign(flag=[q % 2 == 0 for q in range(n)], gc=[0.125 * q - 0.5 for q in range(n)], k=np.arange(n, dtype=np.int8) - 2),
+        "extra-column-between": lambda: bdf.assign(gc=[0.125 * q for q in range(n)])[["chrom", "gc", "start", "end"]],
+    }
+    for k, (form, mk) in enumerate(forms.items()):
+        inner = {"b": b, "bins_form": form}
+        if only is not None and only != inner:
+            continue
+        R.order = (R.order[0], k)
+        R.ev(1, 1 if cells else 0)
+        R.add("states")
+        R.add("transitions", 4)
+        R.add("traces")
+        R.cls("binsform")
+        p = scratch.fresh()
+        try:
+            bf = mk()
+            before = bf.copy()
+            try:
+                cooler.create_cooler(p, bf, build.pix_df({kk: v["count"] for kk, v in pix.items()}), symmetric_upper=symm)
+            except Exception as e:
+                R.mismatch("create-raises:" + type(e).__name__, inner, f"{e!s:.300}")
+                continue
+            if not readback(R, inner, p, bins, pix, symm):
+                continue
+            bt = cooler.Cooler(p).bins()[:]
+            for c in ("flag", "gc", "k"):
+                if c in bf.columns and (c not in bt.columns or bt[c].tolist() != before[c].tolist()):
+                    R.mismatch("extra-bin-column!=input", inner, f"{c}: {bt[c].tolist() if c in bt.columns else 'missing'} want {before[c].tolist()}")
+        finally:
+            scratch.rm(p)
+
+
 def _idtypes(R, unit, only):
     import cooler
     dt, n, symm = unit["dtype"], unit["n"], unit["symm"]
@@ -634,6 +687,9 @@ def run(unit, R, tier, only=None):
     leg = unit["leg"]
     if leg == "idtypes":
         _idtypes(R, unit, only)
+        return
+    if leg == "binsform":
+        _binsform(R, unit["b"], only)
         return
     if leg == "samepath":
         _samepath(R, unit, only)
